@@ -1202,7 +1202,7 @@ func (r *Raft) restoreUserSnapshot(meta *SnapshotMeta, reader io.Reader) error {
 // configuration entry to the log. This must only be called from the
 // main thread.
 func (r *Raft) appendConfigurationEntry(future *configurationChangeFuture) {
-	verifHook("appendConfigurationEntry", r.configurations.latestIndex, r.configurations.committedIndex, r.getCommitIndex(), r.leaderState.commitment.startIndex)
+	verifHook("appendConfigurationEntry", string(r.localID), r.configurations.latestIndex, r.configurations.committedIndex, r.getCommitIndex(), r.leaderState.commitment.startIndex)
 	configuration, err := nextConfiguration(r.configurations.latest, r.configurations.latestIndex, future.req)
 	if err != nil {
 		future.respond(err)
